@@ -1039,7 +1039,10 @@ class MacroProgram(ElementProgram):
             if name is None:
                 continue
 
-            static_attrs[name] = text if text is not None else expr
+            # (an attribute that only ``tal:attributes`` provides has
+            # no initial value)
+            if text is not None:
+                static_attrs[name] = text
 
         if not static_attrs:
             return
